@@ -39,7 +39,20 @@ class GCfg:
     combined: bool = False
     # fixed shapes instead of every shape on N nodes: each shape lists the indices of the dependencies of node i
     fixed_shapes: Tuple[Tuple[Tuple[int, ...], ...], ...] = ()
+    flavours: str = "s"  # run_c13: s(ync) DAG / a(sync) AsyncDAG
     twin: bool = False  # reachability twin: the harness ends with check(False), which must come back violated
+
+
+def _sync(r: Any) -> Any:
+    """Result of an operation of either flavour."""
+    if hasattr(r, "__await__"):
+        import asyncio
+
+        async def w() -> Any:
+            return await r
+
+        return asyncio.run(w())
+    return r
 
 
 def _edges(c: Ctx, names: List[str], cfg: Optional[GCfg] = None) -> Dict[str, List[str]]:
@@ -413,8 +426,9 @@ def run_c13(cfg: GCfg, c: Ctx) -> Any:
         return tuple(r[l] for l in labels)
 
     data: Dict[str, Any] = {"deps": deps, "act": act, "debug": sorted(dbg), "setup0": setup0}
+    flavour = cfg.flavours[c.choose(len(cfg.flavours), "flavour")] if len(cfg.flavours) > 1 else cfg.flavours
     try:
-        d = dag(pipe)
+        d = dag(pipe, is_async=(flavour == "a"))
         built = True
     except SXControl:
         raise
@@ -443,16 +457,16 @@ def run_c13(cfg: GCfg, c: Ctx) -> Any:
     graph_nodes: Set[str] = set(labels)
     try:
         if mode == "call":
-            out = d()
+            out = _sync(d())
             sel_all = set(labels)
         elif mode == "setup":
-            d.setup()
+            _sync(d.setup())
             sel_all = {labels[0]}
         elif mode == "setup+call":
             # an explicit setup phase, then a whole-DAG call: the call runs everything but the node that is already set up
-            d.setup()
+            _sync(d.setup())
             cnt.reset()
-            out = d()
+            out = _sync(d())
             sel_all = set(labels)
             c.cover("w_setup_then_call")
         elif len(mode) == 3:
@@ -469,7 +483,7 @@ def run_c13(cfg: GCfg, c: Ctx) -> Any:
             _prior_executor(c, d, kwsel, run_dbg)
             ex = d.executor(**kwsel)
             graph_nodes = set(ex.graph.nodes)
-            out = ex()
+            out = _sync(ex())
             c.cover("w_combined_selection")
         else:
             kind, x = mode
@@ -481,7 +495,7 @@ def run_c13(cfg: GCfg, c: Ctx) -> Any:
             _prior_executor(c, d, kwsel, run_dbg)
             ex = d.executor(**kwsel)
             graph_nodes = set(ex.graph.nodes)
-            out = ex()
+            out = _sync(ex())
     finally:
         twz_cfg.RUN_DEBUG_NODES = saved
     entered = cnt.entered()
@@ -539,7 +553,7 @@ def run_c13(cfg: GCfg, c: Ctx) -> Any:
 
 # ------------------------------------------------------------------------------------------------ C13: build validation
 BUILD_ROUTES = ("positional", "keyword", "flag", "indexed", "indexed-flag", "unpacked", "operator", "nested-positional",
-                "nested-flag-with-input", "nested-flag-without-input", "nested-inner-flag")
+                "nested-flag-with-input", "nested-flag-without-input", "nested-inner-flag", "nested-returns-producer")
 
 
 @watchdog(lambda cfg: "C13")
@@ -574,8 +588,11 @@ def run_c13_build(cfg: GCfg, c: Ctx) -> Any:
     def subf(f):  # type: ignore[no-untyped-def]
         return q(twz_active=f[0])
 
+    def subp():  # type: ignore[no-untyped-def]
+        return p()  # the nested DAG returns the producer's result; the consumer lives in the outer DAG
+
     # (nested DAGs are built before the outer description starts: the build lock is not re-entrant)
-    nested = {"nested-positional": sub1, "nested-flag-with-input": sub1, "nested-flag-without-input": sub0, "nested-inner-flag": subf}
+    nested = {"nested-positional": sub1, "nested-flag-with-input": sub1, "nested-flag-without-input": sub0, "nested-inner-flag": subf, "nested-returns-producer": subp}
     inner = None
     if route in nested:
         try:
@@ -586,8 +603,10 @@ def run_c13_build(cfg: GCfg, c: Ctx) -> Any:
             return {"case": "inner DAG refused on its own", "error": repr(e)}
 
     def pipe():  # type: ignore[no-untyped-def]
-        r = p()
         k = w()
+        if route == "nested-returns-producer":
+            return k, q(inner())
+        r = p()
         if route == "positional":
             o = q(r)
         elif route == "keyword":
